@@ -69,6 +69,9 @@ pub enum ReadEv {
     Data(usize),
     Intr,
     Fail(usize),
+    /// `Ok(0)` although data is left (a file that is still being written, an empty chunk):
+    /// outside the model's source contract, used by the `F` cases only
+    Zero,
 }
 
 /// error kinds by code (shared with the model as plain numbers)
@@ -131,6 +134,7 @@ impl Read for ScriptedReader {
             Some(ReadEv::Data(n)) => n.max(1).min(space).min(remaining),
             Some(ReadEv::Intr) => return Err(io::Error::new(io::ErrorKind::Interrupted, "interrupted")),
             Some(ReadEv::Fail(k)) => return Err(io::Error::new(KINDS[k % KINDS.len()], "injected")),
+            Some(ReadEv::Zero) => return Ok(0),
             None => {
                 let lim = if self.chunk == 0 { space } else { self.chunk.min(space) };
                 lim.min(remaining)
